@@ -130,15 +130,28 @@ func (h *harness) sectionRhel() {
 	st.add(vs...)
 	ms, _ := realMatchers(ctx)
 	matchers := []driver.Matcher{ms["rhel"], ms["rhel/rhcc"]}
+	// the key the repository scanner stamps
+	probe, err := rhelRepos(ctx, []string{"cpe:/o:redhat:enterprise_linux:8::baseos"})
+	if err != nil || len(probe) != 1 {
+		r.Fail("", fmt.Sprintf("rhel repository scanner on a content manifest mapped to cpe:/o:redhat:enterprise_linux:8::baseos: %d repositories, err=%v", len(probe), err))
+		return
+	}
+	scanKey := probe[0].Key
 	var cands []*claircore.Vulnerability
+	otherKeys := map[string]int{}
 	for _, v := range vs {
-		if v.Repo != nil && v.Repo.Key == "rhel-cpe-repository" && v.Package != nil && v.Package.Name != "" {
+		if v.Repo == nil || v.Package == nil || v.Package.Name == "" {
+			continue
+		}
+		if v.Repo.Key == scanKey {
 			cands = append(cands, v)
+		} else if v.Repo.Key != "" {
+			otherKeys[v.Repo.Key]++
 		}
 	}
 	r.Count(fmt.Sprintf("rhel:vex-advisories~%d", len(cands)/100*100))
 	if len(cands) == 0 {
-		r.Fail("", "the VEX test feed yields no advisory with a rhel-cpe-repository")
+		r.Fail("", fmt.Sprintf("no advisory of the VEX test feed carries the repository key %q the repository scanner stamps (keys on advisories: %v): no RHEL package can be joined", scanKey, otherKeys))
 		return
 	}
 	n := h.cfg.N(60, 400)
